@@ -7,6 +7,7 @@ import FrappyProofs.Lemmas.RatLawful
 import FrappyProofs.Lemmas.DatatypesCanon
 import FrappyProofs.Lemmas.DatatypesCall
 import FrappyProofs.Lemmas.RatGrid
+import FrappyProofs.Lemmas.DatatypesReval
 import FrappyModel.Generated.C01
 /-
 C01 — property theorems (nothing but property theorems and their non-vacuity examples).
@@ -144,16 +145,50 @@ theorem revalidate_unchanged (dt : DType F) (hwf : dt.WF) (hgrid : GridExact dt)
 
 /-- the same statement without the grid hypothesis is not a consequence of the float laws (and is false
 for binary64 where `scale` is below the float spacing at the limits; the repaired `ScaledInteger.validate`
-removed the failing inputs the search found, see design notes) -/
+removed the failing inputs the search found, see design notes).  It quantifies over the whole declared
+value set; what the property demands is the statement about *validated* values below. -/
 def validate_idem_statement : Prop :=
   ∀ (F : Type) [FloatOps F] [LawfulFloatOps F] (dt : DType F), dt.WF → ∀ (r : PVal F), InSet dt r → Canon r →
     validate dt r none = .ok r ∧ validate dt r (some r) = .ok r
 
-/-- the conversion-only path: converting a converted value returns it unchanged.  `GridAll dt`: every
-finite grid value of every scaled type in the tree snaps to itself (holds over `Rat`; for binary64 it can
-fail for grid indices beyond 2^53 — `__call__` has no limits, so the hypothesis is on all grid values) -/
+/-- "validating an already validated value returns it unchanged", with no hypothesis on the tree -/
+def revalidate_unchanged_statement : Prop :=
+  ∀ (F : Type) [FloatOps F] [LawfulFloatOps F] (dt : DType F), dt.WF → ∀ (v : PVal F) (prev : Option (PVal F)),
+    (∀ p, prev = some p → Shaped dt p) → ∀ r, validate dt v prev = .ok r →
+      validate dt r none = .ok r ∧ validate dt r (some r) = .ok r
+
+/-- the proved part of `revalidate_unchanged_statement` (and, restricted to validated values, of
+`validate_idem_statement`): the only thing missing is ONE property of the float carrier, `SnapIdem F` - a finite
+value that came out of snapping to a grid (`y = round(x/scale)*scale`, `scale > 0` finite) snaps to itself.  No
+hypothesis on the tree (`GridExact` needed every grid value between the limits to be exact and the limits'
+grid values to be finite), none on the value set: the induction is over what `validate` did (the grid value
+of the offer, or the grid value of a limit it was clamped to).  `SnapIdem` is proved for `Rat`
+(`rat_snapIdem`); for binary64 it is not among the 27 laws - it is what the run tests on every accepted
+value (clause `idem`), and could fail only where `scale` is below the float spacing (grid indices beyond 2^53). -/
+theorem revalidate_unchanged_partial (hsnap : SnapIdem F) (dt : DType F) (hwf : dt.WF) (v : PVal F)
+    (prev : Option (PVal F)) (hprev : ∀ p, prev = some p → Shaped dt p) (r : PVal F)
+    (h : validate dt v prev = .ok r) : validate dt r none = .ok r ∧ validate dt r (some r) = .ok r :=
+  conv_reval hsnap dt v prev r hwf hprev h
+
+/-- the full statement over the exact carrier -/
+theorem revalidate_unchanged_rat (dt : DType Rat) (hwf : dt.WF) (v : PVal Rat) (prev : Option (PVal Rat))
+    (hprev : ∀ p, prev = some p → Shaped dt p) (r : PVal Rat) (h : validate dt v prev = .ok r) :
+    validate dt r none = .ok r ∧ validate dt r (some r) = .ok r :=
+  revalidate_unchanged_partial rat_snapIdem dt hwf v prev hprev r h
+
+/-- the conversion-only path: converting a converted value returns it unchanged.  `GridAll dt`: for every
+scaled type in the tree a finite value that came out of snapping snaps to itself (holds over `Rat`; for
+binary64 it could fail for grid indices beyond 2^53 — `__call__` has no limits) -/
 theorem call_idem (dt : DType F) (hwf : dt.WF) (hgrid : GridAll dt) (v r : PVal F) (h : call dt v = .ok r) :
     call dt r = .ok r := conv_call_idem dt v none r hwf hgrid h
+
+/-- `call_idem` from the same single carrier property -/
+theorem call_idem_of_snapIdem (hsnap : SnapIdem F) (dt : DType F) (hwf : dt.WF) (v r : PVal F)
+    (h : call dt v = .ok r) : call dt r = .ok r :=
+  call_idem dt hwf (gridAll_of_snapIdem hsnap dt hwf) v r h
+
+theorem call_idem_rat (dt : DType Rat) (hwf : dt.WF) (v r : PVal Rat) (h : call dt v = .ok r) : call dt r = .ok r :=
+  call_idem_of_snapIdem rat_snapIdem dt hwf v r h
 
 /-! ## never any other kind of exception -/
 
@@ -253,6 +288,38 @@ theorem exTree_gridAll : GridAll exTree := by
 
 example : ∀ v r, call exTree v = .ok r → call exTree r = .ok r :=
   fun v r h => call_idem exTree exTree_wf exTree_gridAll v r h
+
+/-- `revalidate_unchanged_partial` / `revalidate_unchanged_rat` on the example: whatever the model accepts for the
+nested tree (here the request of the first example, with the previous value) is returned unchanged -/
+example : ∃ r, acceptWire exTree exWire (some exPrev) = .ok r ∧
+    validate exTree r none = .ok r ∧ validate exTree r (some r) = .ok r := by
+  have hp : ∀ p, some exPrev = some p → Shaped exTree p := fun p hp => by
+    injection hp with hp; rw [← hp]; exact shaped_of_inSet _ _ exPrev_inSet
+  cases h : acceptWire exTree exWire (some exPrev) with
+  | error e =>
+    have hb : (match acceptWire exTree exWire (some exPrev) with
+      | .ok _ => true
+      | _ => false) = true := by decide +kernel
+    rw [h] at hb; cases hb
+  | ok r =>
+    refine ⟨r, rfl, ?_⟩
+    unfold acceptWire at h
+    split at h
+    · cases h
+    · exact revalidate_unchanged_rat exTree exTree_wf _ _ hp r h
+
+/-- a clamped value: `0.3 - 0.04` offered to `ScaledInteger(0.1, 0.3, 10)`-like limits is outside by less than one
+step, returned as the limit's grid value, and that is returned unchanged -/
+example : (match validate (F := Rat) (.scaled (1/10) (3/10) 10 (1/10) 0) (.float (26/100)) none with
+    | .ok r => PVal.same r (.float (3/10))
+    | _ => false) = true := by
+  decide +kernel
+
+example : ∀ v prev r, (∀ p, prev = some p → Shaped (.scaled (1/10 : Rat) (3/10) 10 (1/10) 0) p) →
+    validate (F := Rat) (.scaled (1/10) (3/10) 10 (1/10) 0) v prev = .ok r →
+    validate (F := Rat) (.scaled (1/10) (3/10) 10 (1/10) 0) r none = .ok r ∧
+    validate (F := Rat) (.scaled (1/10) (3/10) 10 (1/10) 0) r (some r) = .ok r :=
+  fun v prev r hp h => revalidate_unchanged_rat _ (by simp only [DType.WF]; decide +kernel) v prev hp r h
 
 /-- a rejected request: a JSON string offered to the scaled elements is a bad-value error, not a number -/
 example : (match acceptWire exTree (.obj [("a", .arr [.str "5"]), ("c", .int 1)]) none with
